@@ -38,8 +38,8 @@ func runC04(c *Ctx) {
 	p := c.Prog
 	c.Rule("R4.1", "every finalising task sequence satisfies the order constraints K1..K6 (exhaustive over table rows)", 5)
 	c.Rule("R4.1b", "next-task lookup returns seq[0] when nothing ran, seq[i+1] after seq[i], END otherwise", 2)
-	c.Rule("R4.2", "doCanaryFinalising dispatches task T to T's cleanup function", 11)
-	c.Rule("R4.3a", "FinalisingStep cursor advances only through err==nil and retry==false of the dispatched cleanup call", 11)
+	c.Rule("R4.2", "doCanaryFinalising dispatches task T to T's cleanup function", 8)
+	c.Rule("R4.3a", "FinalisingStep cursor advances only through err==nil and retry==false of the dispatched cleanup call", 9)
 	c.Rule("R4.3b", "doProgressingReset: each stage and the done result are reached only through the previous stage's success", 4)
 	c.Rule("R4.3c", "FinalisingTrafficRouting: stable Service, gateway, canary Service in that order, each after the previous one's success", 3)
 	c.Rule("R4.5", "canary StepInit: full-replica partition step restores the stable Service successfully before entering Upgrade", 1)
